@@ -1682,26 +1682,41 @@ COMMITTED = ('stream_name', 'key', 'suggested_file_name')
 
 
 def ambiguity_class(base, raw):
-    """The known weakness of the hash format: a tampering whose concatenated hash preimages are byte-identical to the
-    base's (content only moved across a field boundary).  Returns the known-finding class, or None when the
-    preimages differ (then an accepted tampering is a plain violation)."""
+    """The known weakness of the hash format and nothing else: the tampered descriptor differs from the base ONLY in
+    how the same bytes are cut into adjacent fields of one hash preimage --
+      top level: stream_name / key / suggested_file_name differ, their concatenation is byte-identical, every other
+                 field (stream_hash, stream_type, every blob) is identical;
+      blob level: only iv and length of some blobs differ, iv || str(length) is byte-identical for each of them, every
+                 other field (blob_hash and its presence, blob_num, the top-level fields) is identical.
+    Returns the known-finding class, or None (then an accepted tampering is a plain violation)."""
     try:
         d = json.loads(raw.decode())
-
-        def top(x):
-            return x['stream_name'].lower() + x['key'] + x['suggested_file_name'].lower()
-
-        def blob(b):
-            return (b['blob_hash'] if b['length'] != 0 else '') + str(b['blob_num']) + b['iv'] + str(b['length'])
-        if len(d['blobs']) != len(base['blobs']) or top(d) != top(base):
+        if set(d) != set(base) or d['stream_hash'] != base['stream_hash'] or d.get('stream_type') != base.get('stream_type'):
             return None
-        if [blob(b) for b in d['blobs']] != [blob(b) for b in base['blobs']]:
+        if any(not isinstance(d[f], str) for f in COMMITTED):
             return None
-        if d['blobs'] != base['blobs']:
-            return 'shift:blobN.iv>length'
-        moved_right = (len(d['stream_name']), len(d['stream_name']) + len(d['key'])) < \
-                      (len(base['stream_name']), len(base['stream_name']) + len(base['key']))
-        return 'shift:name>key>sugg' if moved_right else 'shift:name<key<sugg'
+        names_differ = any(d[f] != base[f] for f in COMMITTED)
+        blobs_differ = d['blobs'] != base['blobs']
+        if names_differ == blobs_differ:          # nothing moved, or both kinds at once: not one of the known classes
+            return None
+        if names_differ:
+            def top(x):
+                return x['stream_name'] + x['key'] + x['suggested_file_name']
+            if top(d) != top(base):
+                return None
+            moved_right = (len(d['stream_name']), len(d['stream_name']) + len(d['key'])) < \
+                          (len(base['stream_name']), len(base['stream_name']) + len(base['key']))
+            return 'shift:name>key>sugg' if moved_right else 'shift:name<key<sugg'
+        if len(d['blobs']) != len(base['blobs']):
+            return None
+        for x, y in zip(d['blobs'], base['blobs']):
+            if set(x) != set(y) or any(x[f] != y[f] for f in x if f not in ('iv', 'length')):
+                return None
+            if type(x['length']) is not int or not isinstance(x['iv'], str):
+                return None
+            if x['iv'] + str(x['length']) != y['iv'] + str(y['length']):
+                return None
+        return 'shift:blobN.iv>length'
     except Exception:
         return None
 
